@@ -19,7 +19,8 @@ the SRV-mismatch edge cannot reach an Ok return.  Classic: NONC present with the
 (3) Rejected datagrams cause no send: UdpSocket::send_to is called only from Responder::send_responses (over `requests`);
 `requests` is pushed only by add_*_request, called only on Ok arms; nothing reachable from collect_requests sends.
 (4) Size budget (byte-length domain): worst-case encoded response per version = header(6 tags) + SIG + NONC(upper bound from
-the request guard) + PATH(width x 8 levels, u8 batch size) + SREP + CERT + INDX (+12 framing) <= MIN_REQUEST_LENGTH.
+the request guard) + PATH(width x 8 levels, u8 batch size) + SREP + CERT + INDX (+12 framing) <= MIN_REQUEST_LENGTH.  Fault injection keeps the size: every alternative Grease::add_errors can return is the signature corruption (same fields, 64 random SIG bytes) or a permutation of the fields
+(one pair pushed per position of index::sample(rng, n, n), n = number of fields); any other pathology is reported as not known to preserve the size.
 """
 NOT_DECIDED = "nothing essential; the budget over-approximates (path depth 8 from the u8 batch size)"
 TRUSTED = ["Ed25519 signatures are 64 bytes and public keys 32 bytes", "mio recv_from returns the datagram length"]
